@@ -351,6 +351,17 @@ def r5_readout_replace_complete(ctx):
         ctx.check(okm, f.qual + "#override", "the requested changes override the current settings" if okm else f"merge order is {norm(merged)}: current settings override the requested changes", where=f, node=rets[0])
     elif isinstance(merged, ast.Dict):
         base = merged
+    elif len(star) == 1 and isinstance(star[0].value, ast.Name):
+        # built step by step: d = {<current settings>} ; d.update(changes)   (sa/astutil.py:dict_display)
+        from sa.astutil import dict_display
+
+        dd = dict_display(f, star[0].value.id)
+        if dd is not None and dd.keys and dd.keys[-1] is None and all(k is not None for k in dd.keys[:-1]):
+            okm = dotted(dd.values[-1]) == kwv
+            ctx.check(okm, f.qual + "#override", "the requested changes override the current settings" if okm else f"merge order is {norm(dd)}: current settings override the requested changes", where=f, node=rets[0])
+            base = ast.Dict(keys=dd.keys[:-1], values=dd.values[:-1]) if okm else None
+        elif dd is not None and any(k is None for k in dd.keys):
+            ctx.fail(f.qual + "#override", f"merge order is {norm(dd)}: current settings override the requested changes", where=f, node=rets[0])
     from sa.astutil import flow_closure
 
     have = {}
